@@ -49,10 +49,20 @@ class UpdateGen(object):
         k = r.choice(kinds)
         if r.random() < self.malformed:
             x = r.choice(['unknown', 'incstr', 'pushclause', 'renamedots', 'popval', 'notdict',
-                          'mul', 'emptyop'])
+                          'mul', 'emptyop', 'addtosetclause', 'addtosetclause'])
             self._note('malformed:' + x)
             if x == 'unknown':
                 return '$foo', {'a': 1}
+            if x == 'addtosetclause':
+                # $addToSet takes no clause next to $each ($position etc. belong to $push): a
+                # WriteError once a document is matched / upserted, whatever the target holds
+                each = [self.g.operand(doc, 1) for _ in range(r.choice([0, 1, 2]))]
+                other = r.choice(['$position', '$slice', '$sort', '$typo', 'x'])
+                arg = {'$each': each, other: r.choice([0, 1, -1])}
+                if r.random() < 0.4:
+                    arg = dict([(other, arg[other]), ('$each', each)])
+                return '$addToSet', {self.path(doc, 'arr') if r.random() < 0.8 else
+                                     r.choice(FIELDS): arg}
             if x == 'incstr':
                 return '$inc', {self.path(doc): 'x'}
             if x == 'pushclause':
@@ -136,6 +146,11 @@ class UpdateGen(object):
                 u[k].update(body)
             else:
                 u[k] = body
+        if self.r.random() < self.malformed * 0.5:
+            # an unknown operator BEHIND valid (or otherwise failing) ones: refused before any
+            # document is looked for, and before the arguments of the earlier operators are
+            self._note('malformed:trailing-unknown')
+            u[self.r.choice(['$typo', '$mul', '$bit', '$foo'])] = {'a': 1}
         return u
 
     def replacement(self, doc=None, keep_id=0.85):
